@@ -198,11 +198,11 @@ class Gen:
         attribute is patched more than once and read in between."""
         if self.hot is None:
             obj = self.draw(st.integers(0, 2))
-            self.hot = (obj, self.draw(st.sampled_from(["x", "nonev", "missing"] if obj < 2 else ["x", "nonev"])))
+            self.hot = (obj, self.draw(st.sampled_from(["x", "nonev", "missing"])))
         if self.draw(st.integers(0, 2)) > 0:
             return self.hot
         obj = self.draw(st.integers(0, 2))
-        return obj, self.draw(st.sampled_from(["x", "nonev", "missing"] if (obj < 2 or not patching) else ["x", "nonev"]))
+        return obj, self.draw(st.sampled_from(["x", "nonev", "missing"]))
 
     def fixture(self, nest):
         f = {"i": self.nid(), "setup_fail": self.draw(st.integers(0, 4)) == 0, "cleanup_fail": self.draw(st.integers(0, 4)) == 0,
@@ -654,7 +654,7 @@ def marker_of(exc):
 
 class Slotted:
     """A scratch object whose attributes do not live in an instance __dict__."""
-    __slots__ = ("x", "nonev")
+    __slots__ = ("x", "nonev", "missing")      # "missing" is a slot nobody filled: absent until patched in
 
     def __init__(self):
         self.x = "orig-x"
@@ -684,7 +684,8 @@ class Live:
         self.run_no = 0
         self.exec_span = (10 ** 9, -1)
         self.log = []
-        self.objs = [types.SimpleNamespace(x="orig-x", nonev=None), types.SimpleNamespace(x="orig-x", nonev=None), Slotted()]
+        # an ordinary instance, a class (its attributes live in a mappingproxy) and a slotted instance
+        self.objs = [types.SimpleNamespace(x="orig-x", nonev=None), type("Target", (), {"x": "orig-x", "nonev": None}), Slotted()]
         self.cells = {}
         self.raised_objs = {}       # marker -> exception instance
         self.multis = {}
